@@ -380,6 +380,44 @@ def check(rep, F, tier, replay=None):
         narrow_ = sorted({(c.to or "") for sub in [dk_[0]] + [x for x in F.fns if x.startswith(dk_[0] + "::{closure")] for c in F.calls(sub) if re.search(r"TryFrom<i128> for i64>::try_from$", c.to or "") or re.search(r"TryFrom<i128>>::try_from$", c.to or "") and "i64" in (c.to or "") or re.search(r"<i128 as std::convert::TryInto<i64>>::try_into$", c.to or "")})
         if narrow_:
             rep.violation("KEY-int", "decode_key|%s" % ",".join(H.short(x) for x in narrow_)[:80], "decode_key narrows an Int key with %s: {\"-9223372036854775809\": 1} (BasicConversions) becomes the Int key -9223372036854775809, and converting back fails with `out of range integral type conversion attempted` - JSON in normal form does not survive JSON -> metadata -> JSON" % ", ".join(H.short(x) for x in narrow_), {})
+    # KEY-sym: a key kind becomes a string under exactly the schemas under which a string key becomes that kind again
+    rep.rule("KEY-sym", "metadata map keys under the two untagged schemas (NoConversions, BasicConversions): decode_key turns an Int key into its decimal string / a Bytes key into 0x-hex under exactly the schemas under which the JSON -> metadata direction parses an object key back into an Int (Int::from_str) / into bytes (hex_string_to_bytes). Under NoConversions every JSON key is read as text, so an Int or Bytes key must be refused there (documented: non-string keys not supported) - written as \"5\" it would come back as the text key \"5\" with different CBOR bytes")
+    UV = ["NoConversions", "BasicConversions"]
+    MV_ = ["NoConversions", "BasicConversions", "DetailedSchema"]
+    dkh_ = [k for k in F.hir if k.endswith("decode_metadatum_to_json_value::decode_key")]
+    ench_ = F.by_key("protocol_types::metadata::encode_json_value_to_metadatum")
+    encs_ = [k for k in F.hir if k.endswith("encode_json_value_to_metadatum::encode_string")]
+    if len(dkh_) != 1 or len(ench_) != 1 or ench_[0] not in F.hir or len(encs_) != 1:
+        rep.lost("metadata decode_key / encode_json_value_to_metadatum HIR not found")
+    else:
+        mt_ = [n for n in H.walk(F.hir[dkh_[0]]["body"]) if n[0] == "match"]
+        dec_sets = {}
+        for m_ in mt_[:1]:
+            for pat, g, b in m_[3]:
+                for alt in H.pat_alternatives(pat):
+                    v = H.pat_variant(alt)
+                    if not v:
+                        continue
+                    act = set(MV_)
+                    if g is not None:
+                        cs_ = cond_schemas(g, MV_)
+                        if cs_ is None:
+                            rep.lost("decode_key: guard of the %s arm is outside the schema domain" % H.short(v))
+                            continue
+                        act = cs_
+                    is_err = H.is_node(H.strip(b)) and H.strip(b)[0] == "call" and str(H.strip(b)[2] or "").endswith("Err")
+                    if not is_err:
+                        dec_sets.setdefault(H.short(v), set()).update(act)
+        e_int = schemas_reaching(F.hir[ench_[0]]["body"], lambda n: n[0] == "call" and (n[2] or "").endswith("Int::from_str"), MV_) & set(UV)
+        e_hex_in_string = schemas_reaching(F.hir[encs_[0]]["body"], lambda n: n[0] == "call" and (n[2] or "").endswith("hex_string_to_bytes"), MV_) & set(UV)
+        if "Text" not in dec_sets or not e_int:
+            rep.lost("decode_key arms / key parser not recognised (decode arms: %s, Int::from_str under %s)" % (sorted(dec_sets), sorted(e_int)))
+        else:
+            for kind, enc_set in (("Int", e_int), ("Bytes", e_hex_in_string)):
+                rep.inst("KEY-sym")
+                d_ = dec_sets.get(kind, set()) & set(UV)
+                if d_ != enc_set:
+                    rep.violation("KEY-sym", "metadata|%s|%s" % (kind, ",".join(sorted(d_))), "decode_key writes a %s map key as a string under %s, but a JSON object key is read back as %s only under %s: under %s the metadatum -> JSON -> metadatum round trip succeeds and returns a *text* key (different value, different CBOR) instead of failing" % (kind, sorted(d_), kind, sorted(enc_set), sorted(d_ - enc_set) or sorted(enc_set - d_)), {})
     # CONV-iter: converters do not swallow elements or errors
     rep.rule("CONV-iter", "the metadata / datum JSON converters and the chunked-bytes helpers (protocol_types/metadata.rs, protocol_types/plutus/plutus_data.rs) use no element- or error-dropping adaptor (filter / filter_map / flat_map / flatten over fallible items, take / skip / find, Result::ok / unwrap_or*) outside the audited inventory: an element outside the schema produces an error, it is not skipped")
     CONV_OK = {
